@@ -1,7 +1,320 @@
 package main
 
-import "verif/ev"
+import (
+	"fmt"
+	"sort"
+	"strings"
+	"time"
 
-// runConcurrency is the scheduler-based exploration of Handle / HandleRemove / DefaultHandle
-// concurrent with ServeCOAP (DESIGN.md §4 C17, "Space (concurrency)"). Stub: not built yet.
-func runConcurrency(r *ev.Run) {}
+	"github.com/anishathalye/porcupine"
+	"github.com/plgd-dev/go-coap/v3/message/pool"
+	"github.com/plgd-dev/go-coap/v3/mux"
+	"github.com/plgd-dev/go-coap/v3/net/responsewriter"
+
+	"verif/ev"
+	"verif/mcx"
+	"verif/vrt"
+)
+
+// ---- concurrency part (engine E2): Handle / HandleRemove / DefaultHandle concurrent with
+// ServeCOAP on the real Router under the vrt scheduler; every interleaving at lock
+// granularity; histories checked for linearizability against a sequential router built on the
+// reference matcher of match.go.
+
+type rin struct {
+	Op      string // Handle | Remove | Default | Serve
+	Pattern string
+	ID      int      // handler id (Handle, Default)
+	Segs    []string // Serve: Uri-Path segments
+}
+
+func (i rin) String() string {
+	switch i.Op {
+	case "Serve", "MatchNone", "DefaultIs":
+		return i.Op + "(" + refPath(i.Segs) + ")"
+	case "Default":
+		return fmt.Sprintf("DefaultHandle(d%d)", i.ID)
+	case "Handle":
+		return fmt.Sprintf("Handle(%s,h%d)", i.Pattern, i.ID)
+	}
+	return "HandleRemove(" + i.Pattern + ")"
+}
+
+type rout struct {
+	Hits []int // handler ids invoked by one ServeCOAP (must be exactly one)
+	Vars string
+	Tmpl string
+	Err  bool
+}
+
+// state: "default|pattern=id;pattern=id" (sorted)
+func rstate(def int, routes map[string]int) string {
+	ks := make([]string, 0, len(routes))
+	for k := range routes {
+		ks = append(ks, k)
+	}
+	sort.Strings(ks)
+	var b strings.Builder
+	fmt.Fprintf(&b, "%d|", def)
+	for _, k := range ks {
+		fmt.Fprintf(&b, "%s=%d;", k, routes[k])
+	}
+	return b.String()
+}
+
+func rparse(s string) (int, map[string]int) {
+	var def int
+	i := strings.Index(s, "|")
+	fmt.Sscan(s[:i], &def)
+	m := map[string]int{}
+	for _, kv := range strings.Split(s[i+1:], ";") {
+		if kv == "" {
+			continue
+		}
+		j := strings.LastIndex(kv, "=")
+		var v int
+		fmt.Sscan(kv[j+1:], &v)
+		m[kv[:j]] = v
+	}
+	return def, m
+}
+
+var refCache = map[string]*refPattern{}
+
+func refOf(p string) *refPattern {
+	if r, ok := refCache[p]; ok {
+		return r
+	}
+	r := parseRef(p)
+	refCache[p] = r
+	return r
+}
+
+func routerModel(init string) porcupine.Model {
+	return porcupine.Model{
+		Init: func() interface{} { return init },
+		Step: func(state, input, output interface{}) (bool, interface{}) {
+			def, routes := rparse(state.(string))
+			i, o := input.(rin), output.(rout)
+			switch i.Op {
+			case "Handle":
+				routes[i.Pattern] = i.ID
+				return !o.Err, rstate(def, routes)
+			case "Remove":
+				_, had := routes[i.Pattern]
+				delete(routes, i.Pattern)
+				return o.Err == !had, rstate(def, routes)
+			case "Default":
+				return true, rstate(i.ID, routes)
+			case "DefaultIs": // the default handler a dispatch fell back to was the installed one at some instant of the call
+				return o.Hits[0] == def, state
+			case "MatchNone": // at some instant of the call no registered route matched the path
+				path := refPath(i.Segs)
+				for p := range routes {
+					if refOf(p).splits(path) != nil {
+						return false, state
+					}
+				}
+				return true, state
+			case "Serve":
+				if len(o.Hits) != 1 {
+					return false, state
+				}
+				path := refPath(i.Segs)
+				best := -1
+				for p := range routes {
+					if refOf(p).splits(path) != nil && len(p) > best {
+						best = len(p)
+					}
+				}
+				if best < 0 {
+					return o.Hits[0] == def, state
+				}
+				for p, id := range routes {
+					if len(p) == best && refOf(p).splits(path) != nil && id == o.Hits[0] && o.Tmpl == p {
+						for _, sp := range refOf(p).splits(path) {
+							if fmt.Sprint(sp) == o.Vars {
+								return true, state
+							}
+						}
+					}
+				}
+				return false, state
+			}
+			panic("unknown router op")
+		},
+		Equal: func(a, b interface{}) bool { return a == b },
+	}
+}
+
+type rprogram struct {
+	Threads [][]rin
+}
+
+func (p rprogram) String() string {
+	var b strings.Builder
+	for t, ops := range p.Threads {
+		fmt.Fprintf(&b, "T%d[", t)
+		for j, o := range ops {
+			if j > 0 {
+				b.WriteString(" ")
+			}
+			b.WriteString(o.String())
+		}
+		b.WriteString("] ")
+	}
+	return b.String()
+}
+
+const (
+	idDefault0 = 100
+	idDefault1 = 101
+)
+
+func routerScenario(p rprogram, bounds mcx.Bounds) *mcx.Scenario {
+	initRoutes := map[string]int{"/a": 1, "/{x}": 2}
+	return &mcx.Scenario{
+		Name:   "router init{/a=h1,/{x}=h2,default=d100} " + p.String(),
+		Bounds: bounds,
+		Body: func(s *vrt.Sched) func() (string, []mcx.Finding) {
+			router := mux.NewRouter()
+			router.SetErrorHandler(func(error) {})
+			type rec struct {
+				hits []int
+				vars string
+				tmpl string
+			}
+			recs := map[*pool.Message]*rec{}
+			mk := func(id int) mux.Handler {
+				return mux.HandlerFunc(func(_ mux.ResponseWriter, r *mux.Message) {
+					rc := recs[r.Message]
+					rc.hits = append(rc.hits, id)
+					if r.RouteParams != nil {
+						if len(r.RouteParams.Vars) > 0 {
+							rc.vars = fmt.Sprint(r.RouteParams.Vars)
+						}
+						rc.tmpl = r.RouteParams.PathTemplate
+					}
+				})
+			}
+			router.DefaultHandle(mk(idDefault0))
+			for _, k := range []string{"/a", "/{x}"} {
+				_ = router.Handle(k, mk(initRoutes[k]))
+			}
+			serve := mux.ToHandler[*fakeConn](router)
+			conn := &fakeConn{}
+			h := &struct {
+				clock int64
+				ops   []porcupine.Operation
+			}{}
+			tick := func() int64 { h.clock += 2; return h.clock }
+			var served []porcupine.Operation
+			for t, ops := range p.Threads {
+				t, ops := t, ops
+				vrt.App(fmt.Sprintf("T%d", t), func() {
+					for _, i := range ops {
+						call := tick()
+						var o rout
+						switch i.Op {
+						case "Handle":
+							o.Err = router.Handle(i.Pattern, mk(i.ID)) != nil
+						case "Remove":
+							o.Err = router.HandleRemove(i.Pattern) != nil
+						case "Default":
+							router.DefaultHandle(mk(i.ID))
+						case "Serve":
+							req := newRequest(i.Segs)
+							rc := &rec{vars: "map[]"}
+							recs[req] = rc
+							w := responsewriter.New(pool.NewMessage(req.Context()), conn)
+							serve(w, req)
+							o.Hits, o.Vars, o.Tmpl = rc.hits, rc.vars, rc.tmpl
+						}
+						if i.Op == "Serve" && len(o.Hits) == 1 && o.Hits[0] >= idDefault0 {
+							// The statement asks for race freedom and "never a pattern that does not match" under
+							// concurrency, not for an atomic snapshot of (routes, default): the fallback is
+							// specified as two independent observations inside the call (see DESIGN, Corrections).
+							ret := tick()
+							h.ops = append(h.ops, porcupine.Operation{ClientId: t, Input: rin{Op: "MatchNone", Segs: i.Segs}, Call: call, Output: o, Return: ret})
+							h.ops = append(h.ops, porcupine.Operation{ClientId: 10 + t, Input: rin{Op: "DefaultIs", Segs: i.Segs}, Call: call, Output: o, Return: ret})
+							served = append(served, porcupine.Operation{ClientId: t, Input: i, Call: call, Output: o, Return: ret})
+							continue
+						}
+						if i.Op == "Serve" {
+							served = append(served, porcupine.Operation{ClientId: t, Input: i, Call: call, Output: o, Return: h.clock + 2})
+						}
+						h.ops = append(h.ops, porcupine.Operation{ClientId: t, Input: i, Call: call, Output: o, Return: tick()})
+					}
+				})
+			}
+			return func() (string, []mcx.Finding) {
+				var fs []mcx.Finding
+				for _, op := range served {
+					i, o := op.Input.(rin), op.Output.(rout)
+					if len(o.Hits) != 1 {
+						fs = append(fs, mcx.Finding{Sig: "conc/not-exactly-one-handler", What: fmt.Sprintf("%s: %s invoked handlers %v", p, i, o.Hits)})
+						continue
+					}
+					if o.Tmpl != "" && refOf(o.Tmpl).splits(refPath(i.Segs)) == nil {
+						fs = append(fs, mcx.Finding{Sig: "conc/dispatch-to-nonmatching-pattern", What: fmt.Sprintf("%s: %s dispatched to pattern %q which does not match", p, i, o.Tmpl)})
+					}
+				}
+				if !porcupine.CheckOperations(routerModel(rstate(idDefault0, initRoutes)), h.ops) {
+					fs = append(fs, mcx.Finding{Sig: "conc/router-not-linearizable", What: fmt.Sprintf("%s: history has no linearization against the sequential router: %v", p, histStr(h.ops))})
+				}
+				return histStr(h.ops), fs
+			}
+		},
+	}
+}
+
+func histStr(ops []porcupine.Operation) string {
+	var b strings.Builder
+	for _, o := range ops {
+		fmt.Fprintf(&b, "[T%d %v -> %v @%d..%d] ", o.ClientId, o.Input, o.Output, o.Call, o.Return)
+	}
+	return b.String()
+}
+
+func runConcurrency(r *ev.Run) {
+	ops := []rin{
+		{Op: "Serve", Segs: []string{"a"}},
+		{Op: "Serve", Segs: []string{"b"}},
+		{Op: "Serve", Segs: []string{"a", "b"}},
+		{Op: "Handle", Pattern: "/{x:a|b}", ID: 3},
+		{Op: "Handle", Pattern: "/a", ID: 4},
+		{Op: "Handle", Pattern: "/a/{y}", ID: 5},
+		{Op: "Remove", Pattern: "/{x}"},
+		{Op: "Remove", Pattern: "/a"},
+		{Op: "Default", ID: idDefault1},
+	}
+	unb := mcx.Bounds{Preempt: -1, Env: -1, Select: -1}
+	var scs []*mcx.Scenario
+	n := len(ops)
+	for a := 0; a < n; a++ {
+		for b := a; b < n; b++ {
+			if ops[a].Op != "Serve" && ops[b].Op != "Serve" {
+				continue
+			}
+			scs = append(scs, routerScenario(rprogram{Threads: [][]rin{{ops[a]}, {ops[b]}}}, unb))
+			for c := b; c < n; c++ {
+				scs = append(scs, routerScenario(rprogram{Threads: [][]rin{{ops[a]}, {ops[b]}, {ops[c]}}}, unb))
+			}
+			// a thread that dispatches twice sees registrations in order
+			for c := 3; c < n; c++ {
+				scs = append(scs, routerScenario(rprogram{Threads: [][]rin{{ops[a], ops[b]}, {ops[c]}}}, unb))
+			}
+		}
+	}
+	sum := mcx.Explore(r, scs, mcx.Config{Wall: ev.Pick(r, 3*time.Minute, 15*time.Minute)})
+	r.Set("states", sum.Nodes)
+	r.Set("transitions", sum.Steps)
+	r.Set("traces_validated_against_impl", sum.Execs)
+	r.Set("concurrency_programs", int64(len(scs)))
+	r.Set("concurrency_executions", sum.Execs)
+	r.Set("concurrency_distinct_histories", int64(len(sum.Outcomes)))
+	r.Set("concurrency_exhaustive", !sum.Capped)
+	r.Set("concurrency_rule", "programs = pairs and triples of threads (and 2+1 programs) over {Serve(/a), Serve(/b), Serve(/a/b), Handle x3, HandleRemove x2, DefaultHandle} containing at least one dispatch, on a router with routes /a and /{x}; every interleaving at lock granularity (unbounded preemptions) on the real mux.Router; each history checked by porcupine against a sequential router specified with the reference matcher; additionally no dispatch may reach a pattern that does not match")
+	r.Sample(map[string]any{"concurrency_program": scs[len(scs)/2].Name})
+	r.Assume("concurrency part: scheduling points at RWMutex operations; map iteration inside Router.Match in sorted order; data races proper are outside a cooperative scheduler (DESIGN §3.2.7)")
+}
